@@ -470,7 +470,9 @@ class CircuitTemplate(AbstractBaseTemplate):
         # perform simulation via the graph representation
         #################################################
 
-        # create mapping between requested output variables and the current network variables
+        # create mapping between requested output variables and the current network variables. The indices are relative
+        # to each recorded variable: state-vector offsets remembered from an earlier `get_run_func` call do not apply.
+        net._state_var_indices = {}
         if type(outputs) is dict:
             output_map, outputs_ir = net.get_variable_positions(outputs)
         else:
@@ -620,8 +622,13 @@ class CircuitTemplate(AbstractBaseTemplate):
 
         # impose initial condition
         for key, val in self._state_var_values.items():
-            v = net.compute_graph.get_var(key)
-            v.set_value(np.reshape(val, v.shape))
+            try:
+                v = net.compute_graph.get_var(key)
+                v.set_value(np.reshape(val, v.shape))
+            except (KeyError, ValueError):
+                # state remembered from an earlier compilation with another variable layout (e.g. a different
+                # `vectorize` setting): it does not apply to this compute graph
+                continue
 
         # generate the run function
         func, args, arg_names, state_var_indices = net._ir.get_run_func(func_name=func_name, step_size=step_size,
@@ -712,8 +719,13 @@ class CircuitTemplate(AbstractBaseTemplate):
 
         # impose initial condition
         for key, val in self._state_var_values.items():
-            v = net.compute_graph.get_var(key)
-            v.set_value(np.reshape(val, v.shape))
+            try:
+                v = net.compute_graph.get_var(key)
+                v.set_value(np.reshape(val, v.shape))
+            except (KeyError, ValueError):
+                # state remembered from an earlier compilation with another variable layout (e.g. a different
+                # `vectorize` setting): it does not apply to this compute graph
+                continue
 
         # generate the Jacobian function
         func, args, arg_names, state_var_indices = net._ir.get_jacobian_func(func_name=func_name,
@@ -1237,7 +1249,8 @@ class CircuitTemplate(AbstractBaseTemplate):
         try:
             *n, o, v = var.split('/')
             return np.arange(*self._state_var_indices[v])[idx]
-        except KeyError:
+        except (KeyError, TypeError, IndexError):
+            # no (or stale, from an earlier compilation with another layout) state-vector bookkeeping for this variable
             return idx
 
     def _apply_populations_and_connections(self) -> tuple:
